@@ -79,7 +79,15 @@ partial def loop (h : IO.FS.Stream) (out : IO.FS.Stream) (types : Array Ty) : IO
       ((" ".intercalate ws).splitOn "|").mapM fun x => match parseInit (tokenize x) with | some (i, []) => some i | _ => none
     let r :=
       if k == "S" || k == "AS" then
-        match initsOf rest with
+        -- each message: an initialiser, optionally followed by `~op` edits applied through the send guard
+        let msgOf (x : String) : Option (Init × List Op) :=
+          match x.splitOn "~" with
+          | i :: eds =>
+            match parseInit (tokenize i), eds.mapM (fun e => parseOp ((e.trimAscii.toString.splitOn " ").filter (· ≠ ""))) with
+            | some (ini, []), some ops => some (ini, ops)
+            | _, _ => none
+          | [] => none
+        match ((" ".intercalate rest).splitOn "|").mapM msgOf with
         | some is => runS t max.toNat! (parseScript script) is (k == "AS")
         | none => "BAD-INIT"
       else if k == "R" || k == "AR" then
